@@ -1188,6 +1188,72 @@ fn fam_refs(_func: Option<&str>, only: Option<u64>, panics_only: bool, shared: b
     rep.print();
 }
 
+// C05, bounded stand-in for the ASSUMED memo cut ("a diagram met again while it is being decided is empty"):
+// direct emptiness queries on mutually recursive named types, several in sequence against ONE context, in every
+// order. The oracle is one-sided and definite: a type reported EMPTY although a finite value (lists over null,
+// nesting <= 4, length <= 2) is a member of it is a wrong answer. (An answer memoised while an outer type was still
+// assumed empty would show up as exactly that in a later query.)
+fn fam_memo(_func: Option<&str>, only: Option<u64>) {
+    let mut rep = Rep::new("memo", "list_is_empty", only);
+    let b = |t: RT| Box::new(t);
+    let defsets: Vec<Vec<(&'static str, RT)>> = vec![
+        // X = [ [Y] | [] ],  Y = [X]      (X is inhabited by [[]]; deciding X asks about Y while X is in progress)
+        vec![("X", RT::Tup(vec![RT::Or(vec![RT::Tup(vec![RT::Ref("Y")], None), RT::Tup(vec![], None)])], None)), ("Y", RT::Tup(vec![RT::Ref("X")], None))],
+        // X = [ [] | [Y] ]  (other order of the union), Y = [X]
+        vec![("X", RT::Tup(vec![RT::Or(vec![RT::Tup(vec![], None), RT::Tup(vec![RT::Ref("Y")], None)])], None)), ("Y", RT::Tup(vec![RT::Ref("X")], None))],
+        // X = [Y, ...null[]] , Y = [X] | ... through a rest type:  X = [ [Y] | null ], Y = [X, ...X[]]
+        vec![("X", RT::Tup(vec![RT::Or(vec![RT::Tup(vec![RT::Ref("Y")], None), RT::Null])], None)), ("Y", RT::Tup(vec![RT::Ref("X")], Some(b(RT::Ref("X")))))],
+        // three in a ring, only Z has a base case
+        vec![("X", RT::Tup(vec![RT::Ref("Y")], None)), ("Y", RT::Tup(vec![RT::Ref("Z")], None)), ("Z", RT::Tup(vec![RT::Or(vec![RT::Tup(vec![RT::Ref("X")], None), RT::Null])], None))],
+        // genuinely empty ring (no base case): every answer "empty" is right
+        vec![("X", RT::Tup(vec![RT::Ref("Y")], None)), ("Y", RT::Tup(vec![RT::Ref("X")], None))],
+    ];
+    // values: lists over null, nesting <= 4, length <= 2
+    let mut vals: Vec<RVal> = vec![RVal::Null];
+    for _ in 0..4 {
+        let mut next = vals.clone();
+        next.push(RVal::List(vec![]));
+        for a in &vals { next.push(RVal::List(vec![a.clone()])); }
+        let thin: Vec<&RVal> = vals.iter().take(6).collect();
+        for a in &thin { for c in &thin { next.push(RVal::List(vec![(*a).clone(), (*c).clone()])); } }
+        next.dedup();
+        vals = next;
+        let mut uniq: Vec<RVal> = vec![];
+        for v in vals.into_iter() { if !uniq.contains(&v) { uniq.push(v); } }
+        vals = uniq;
+    }
+    for defs in &defsets {
+        let named: Vec<NamedSchema> = defs.iter().map(|(n, t)| NamedSchema { name: rv_uuid(n), schema: rt_to_runtype(t) }).collect();
+        let names: Vec<&'static str> = defs.iter().map(|(n, _)| *n).collect();
+        // every sequence of queries of length 1..=3 over the definitions
+        let mut seqs: Vec<Vec<&'static str>> = vec![];
+        for a in &names { seqs.push(vec![*a]); for c in &names { seqs.push(vec![*a, *c]); for d in &names { seqs.push(vec![*a, *c, *d]); } } }
+        for sq in seqs {
+            if !rep.want() { continue; }
+            let nrefs: Vec<&NamedSchema> = named.iter().collect();
+            let mut ctx = SemTypeContext::new();
+            let mut answers: Vec<(&'static str, bool)> = vec![];
+            let mut refused = false;
+            for q in &sq {
+                let t = match rt_to_runtype(&RT::Ref(q)).to_sem_type(&nrefs, &mut ctx) { Ok(x) => x, Err(_) => { refused = true; break; } };
+                match t.is_empty(&mut ctx) { Ok(r) => answers.push((*q, r)), Err(_) => { refused = true; break; } }
+            }
+            if refused { continue; }
+            for (q, said_empty) in &answers {
+                if *said_empty {
+                    if let Some(w) = vals.iter().find(|v| rt_member(&RT::Ref(q), v, defs)) {
+                        rep.fail(format!("definitions {:?}; emptiness queries in this order against one context: {:?}", defs, sq),
+                                 format!("answers {:?}: {} is reported EMPTY", answers, q),
+                                 format!("{} is not empty: {:?} is a member", q, w));
+                        break;
+                    }
+                }
+            }
+        }
+    }
+    rep.print();
+}
+
 fn main() {
     let args: Vec<String> = std::env::args().collect();
     let fam = args.get(1).map(|s| s.as_str()).unwrap_or("all");
@@ -1222,6 +1288,7 @@ fn main() {
         "refs" => fam_refs(f, only, false, false),
         "refspanic" => fam_refs(f, only, true, false),
         "refsshared" => fam_refs(f, only, false, true),
+        "memo" => fam_memo(f, only),
         _ => {
             fam_bdd(f, only);
             fam_dnf(f, only);
